@@ -363,8 +363,11 @@ req0_recv_cb(void *arg)
 		return;
 	}
 
-	// We have our match, so we can remove this.
+	// We have our match, so we can remove this.  The request is over: the
+	// context no longer depends on the pipe that carried it (losing that
+	// pipe later must not discard the reply or reset the context).
 	nni_list_node_remove(&ctx->send_node);
+	nni_list_node_remove(&ctx->pipe_node);
 	nni_id_remove(&s->requests, id);
 	ctx->request_id = 0;
 	if (ctx->req_msg != NULL) {
